@@ -210,6 +210,28 @@ Example ex_range_plain :
 Proof. vm_compute. repeat split. Qed.
 
 (* ------------------------------------------------------------------ *)
+(* Integer, list and index-tensor selections in plain terms (Proofs/IndexFacts.v): an entry i over n rows is accepted
+   iff -n <= i < n and then denotes row (i mod n) -- a negative entry wraps exactly once, never twice; duplicates and
+   order are kept; one rejected entry rejects the whole selection. *)
+From PF Require Import Proofs.IndexFacts.
+
+Theorem list_and_tensor_indices_in_plain_terms : forall n l,
+  let answer := if forallb (in_range_z n) l then Some (map (fun i => Z.to_nat (i mod Z.of_nat n)) l) else None in
+  py_positions n (IList l) = answer /\ py_positions n (ITensor l) = answer.
+Proof. exact (fun n l => conj (list_positions_plain n l) (tensor_positions_plain n l)). Qed.
+Print Assumptions list_and_tensor_indices_in_plain_terms.
+
+Theorem integer_index_in_plain_terms : forall n i,
+  py_positions n (IInt i) = if in_range_z n i then Some [Z.to_nat (i mod Z.of_nat n)] else None.
+Proof. exact int_positions_plain. Qed.
+Print Assumptions integer_index_in_plain_terms.
+
+Example ex_index_plain :
+  py_positions 4 (IList [-4; 3; -1; 0; 3]%Z) = Some [0; 3; 3; 0; 3]
+  /\ py_positions 4 (ITensor [0; -5]%Z) = None /\ py_positions 4 (IInt 4%Z) = None /\ py_positions 0 (IList []) = Some [].
+Proof. vm_compute. repeat split. Qed.
+
+(* ------------------------------------------------------------------ *)
 (* "The source is left unchanged" for the one object of the caller that the selection code writes next to: the index
    tensor.  Store model (Model/FrameStore.v) of _normalize_index's tensor branch -- clone, then the masked in-place
    += on the clone: the caller's tensor (any object that existed before) is never written, whatever it contains, and
